@@ -684,6 +684,83 @@ def check_parse_date(P, R):
              why='a date not older than the file yields 304', key_extra='isdst')
 
 
+NONE_TOLERANT = {'repr', 'str', 'type', 'isinstance', 'dict', 'format', 'id', 'bool', 'print', 'getattr', 'hasattr'}
+
+
+def check_error_page_total(P, R, rid):
+    """the 416 of static_file is an HTTPError built from a status and a text: its `traceback` and `exception` are None.  The page renderer hands them only to
+    operations defined on None, else the 416 leaves the framework as a 500"""
+    f = P.maybe_func('ombott.error_render:render')
+    if f is None:
+        R.undecided(rid, 'ombott.error_render:render', None, 'render', 'the error page renderer was not found')
+        return
+    g, rd = f.cfg, f.rd
+    ep = f.params[0]
+
+    def optional_field(e, at):
+        if isinstance(e, ast.Attribute) and e.attr in ('traceback', 'exception') and isinstance(e.value, ast.Name) and e.value.id == ep:
+            return e.attr
+        if isinstance(e, ast.Name) and rd.is_local(e.id):
+            ds = rd.at(at, e.id)
+            hit = [optional_field(d.value, d.node) for d in ds if d.kind == 'assign' and d.value is not None]
+            hit = [h_ for h_ in hit if h_]
+            return hit[0] if hit else None
+        return None
+    n_ok = 0
+    for c in walk_shallow(f.node):
+        if not isinstance(c, ast.Call):
+            continue
+        ns_ = g.node_of_stmt(c)
+        if not ns_:
+            continue
+        at = ns_[0]
+        for a in c.args:
+            fld = optional_field(a, at)
+            if not fld:
+                continue
+            callee = (dotted(c.func) or '').split('.')[-1]
+            atoms = T.guard_atoms(f, at)
+            guarded = any(holds_ and (src(e_) == src(a) or (compare_parts(e_) and compare_parts(e_)[1] is ast.IsNot and src(compare_parts(e_)[0]) == src(a))) for (e_, holds_, _t) in atoms)
+            in_try = enclosing(c, ast.Try)
+            caught = in_try is not None and any(c is x for st in in_try.body for x in ast.walk(st)) and any(
+                h.type is None or src(h.type) in ('Exception', 'BaseException') for h in in_try.handlers)
+            ok = callee in NONE_TOLERANT or guarded or caught
+            n_ok += ok
+            R.ob(rid, f, c, ok, text=f'`{short(c)}`: {ep}.{fld} may be None', detail='' if ok else
+                 f'`{short(c)}` is given {ep}.{fld}, which is None for an error built from a status and a text (static_file\'s 416): the renderer raises inside _cast and '
+                 f'the catch-all answers "500 Critical error" where 416 was due',
+                 why='an unsatisfiable Range is answered 416', key_extra=f'none-field:{fld}')
+    R.ob(rid, f, f.node, True, text=f'renderer: {n_ok} call(s) take the optional fields of the error, all None-tolerant', nontrivial=False, key_extra='none-field-summary')
+
+
+def check_optional_body_calls(P, R, rid):
+    """for HEAD static_file keeps '' where the open file would be: a method call on the body that is not under a truth test fails for HEAD"""
+    f = P.func(f'{SS}:static_file')
+    g, rd = f.cfg, f.rd
+
+    def may_be_text(v):
+        if isinstance(v, ast.IfExp):
+            return may_be_text(v.body) or may_be_text(v.orelse)
+        return isinstance(v, ast.Constant) and isinstance(v.value, (str, bytes))
+    for c in walk_shallow(f.node):
+        if not (isinstance(c, ast.Call) and isinstance(c.func, ast.Attribute) and isinstance(c.func.value, ast.Name)):
+            continue
+        nm = c.func.value.id
+        ns_ = g.node_of_stmt(c)
+        if not ns_ or not rd.is_local(nm):
+            continue
+        ds = rd.at(ns_[0], nm)
+        if not any(d.value is not None and isinstance(d.value, ast.IfExp) and may_be_text(d.value) for d in ds):
+            continue
+        if c.func.attr in dir(str) and c.func.attr in dir(bytes):
+            continue
+        atoms = T.guard_atoms(f, ns_[0])
+        guarded = any(holds_ and isinstance(e_, ast.Name) and e_.id == nm for (e_, holds_, _t) in atoms)
+        R.ob(rid, f, c, guarded, text=f'`{short(c)}` only where `{nm}` is the open file', detail='' if guarded else
+             f'`{short(c)}`: for a HEAD request `{nm}` is the empty text, not a file - the call raises AttributeError and the request is answered 500 instead of the '
+             f'416 / 206 / 200 headers', why='HEAD yields the same headers with no body', key_extra='optional-body-call')
+
+
 def check(P, R):
     R.rule('C17.a', 'one slice, three descriptions', floor=7)
     R.rule('C17.b', 'parser returns clipped ordered pairs, raises nothing', floor=5)
@@ -698,3 +775,5 @@ def check(P, R):
     check_stream(P, R)
     check_static_file(P, R)
     check_parse_date(P, R)
+    check_error_page_total(P, R, 'C17.a')
+    check_optional_body_calls(P, R, 'C17.e')
